@@ -39,6 +39,7 @@ func (m *Machine) advanceClockTo(deadline *smt.Term) {
 func (m *Machine) timerFired(ch *Chan) {
 	if ch != nil && ch.Timer && ch.Deadline != nil && !ch.Expired {
 		m.advanceClockTo(ch.Deadline)
+		m.lateArrivals()
 	}
 }
 
